@@ -78,10 +78,15 @@ pub open spec fn same_coords(c: AnnotationCoordinates, s: pavex_bp_schema::Annot
     s.id@ == c.id@ && same_created_at(c.created_at, s.created_at) && s.macro_name@ == c.macro_name@
 }
 
-/// reflection::Sources -> schema Sources (`into_iter().map(..).collect()`: iterator adapters — ASSUMED contract)
-pub uninterp spec fn sources_of(s: Sources) -> pavex_bp_schema::Sources;
-#[verifier::external_body]
-pub fn sources2sources(sources: Sources) -> (r: pavex_bp_schema::Sources) ensures r == sources_of(sources) { unimplemented!() }
+/// reflection::Sources -> schema Sources: the same modules, in the same order, with repetitions (`sources2sources` is
+/// extracted and proved against this — vstd specifies `into_iter().map(..).collect()`)
+pub open spec fn same_sources(s: Sources, r: pavex_bp_schema::Sources) -> bool {
+    match (s, r) {
+        (Sources::All, pavex_bp_schema::Sources::All) => true,
+        (Sources::Some(v), pavex_bp_schema::Sources::Some(w)) => w@.len() == v@.len() && forall |i: int| 0 <= i < v@.len() ==> (#[trigger] w@[i])@ == v@[i]@,
+        _ => false,
+    }
+}
 
 /// C19, first sentence, last step: what the compiler parses from the text `persist` wrote is the schema that was built.
 /// (`utf8` is injective; reading the file back gives the text that was written: file-system facts, see C10.)
